@@ -8,7 +8,11 @@ EVIDENCE = dict(
     rule="cases = every document of four families of WordDoc.tla, enumerated exhaustively by TLC together with the items "
          "the reader contract emits: A interleavings of <= 3 (thorough 4) blocks over 11 block shapes, B one paragraph with every "
          "arrangement of <= 2 children x <= 2 atoms over the wrapper/atom alphabets, C every table <= 2x2 (thorough 3x3) with "
-         "merges, a two-paragraph cell and a cell paragraph with mixed inline content, D every heading declaration x header/footer parts and nested list runs; each for DOCX and "
+         "merges, a two-paragraph cell and a cell paragraph with mixed inline content plus every 2x3 table with <= 2+2 merges, "
+         "S every style sheet that is a basedOn / parent-style chain of 1..4 styles in which each style independently declares "
+         "nothing or a heading level (built-in style, name only in either case, outline level only; ODT: with / without "
+         "default-outline-level) and whose root is based on nothing / the default style / an undefined style / a style of the "
+         "chain (cycle), with the spec-computed level (nearest declaration wins), D every heading declaration x header/footer parts and nested list runs; each for DOCX and "
          "ODT. Each case is rendered by the independent writers and read through docx.Open/odt.Open and tabula.Open "
          "(Text, Markdown, Document). Non-trivial = body with a table or a paragraph mixing >= 3 inline kinds; distinct by "
          "format + body. Traces = documents (a sample of the cases + larger random ones) whose observed model WordDocTrace.tla accepted.",
@@ -29,6 +33,16 @@ NOTES = """Interpretation choices (soundness first):
 * Heading level: asserted on model.Heading.Level and on the number of '#' in Markdown (levels 1..6 only).  A heading is
   whatever ECMA-376 / ODF make one: built-in heading style, a style whose basedOn chain reaches one (outlineLvl is
   inherited through basedOn, 17.7.4.3), a direct w:outlineLvl; text:h with text:outline-level.
+* Style sheets (family S, DOCX): the level of a paragraph styled with style s is the nearest declaration along the
+  basedOn chain starting at s itself; a declaration is: the built-in heading style (id HeadingN, name "heading N",
+  outline level), the built-in heading NAME alone ("heading N" or "Heading N" as other producers write it), or an
+  outline level alone.  A w:styleId alone is an opaque identifier and is never asserted to mean anything.  A chain
+  without declaration that ends at nothing / Normal is a plain paragraph.  Unconstrained (P or H of any level, but the
+  text must be there and nothing may crash or hang): chains that are cyclic (invalid by ECMA-376) and chains that
+  run into an undefined style before any declaration.
+* Style sheets (ODT): a text:h's own text:outline-level decides (ODF 1.2 part 1, 5.1.2); the sheet's styles that
+  carry a default-outline-level agree with it (no conflicting documents are generated); cyclic / dangling parent
+  chains are unconstrained.  text:p is never asserted to become a heading through its style.
 * List nesting: model.ListItem.Level relative to the shallowest item; in Text/Markdown only the *direction* of the
   indentation change between consecutive items.  Ordered/unordered and the numbers themselves are not asserted.
 * Table grid: in the model every anchor cell at its (row, col) with its spans and tokens, nothing else non-empty, and
@@ -74,9 +88,9 @@ def run(ctx):
     neg = ctx.tlc("DocxOrderImplMC", "DocxOrderImpl_blind.cfg", workers=1, expect_violation=True)
     ctx.extra["docx_order_impl_refuted"] = neg["violated"]
     # R1 + R2: invariants checked and cases emitted in the same exhaustive runs
-    cfgs = ["WordDoc_A_quick.cfg", "WordDoc_B_quick.cfg", "WordDoc_C_quick.cfg", "WordDoc_D.cfg"] if q else \
+    cfgs = ["WordDoc_A_quick.cfg", "WordDoc_B_quick.cfg", "WordDoc_C_quick.cfg", "WordDoc_D.cfg", "WordDoc_S.cfg"] if q else \
            ["WordDoc_A_thorough.cfg", "WordDoc_B_quick.cfg", "WordDoc_B_thorough.cfg", "WordDoc_B_thorough2.cfg",
-            "WordDoc_C_thorough.cfg", "WordDoc_D.cfg"]
+            "WordDoc_C_thorough.cfg", "WordDoc_D.cfg", "WordDoc_S.cfg"]
     cases, seen = [], set()
     for cfg in cfgs:
         gen = ctx.tlc("WordDocMC", cfg, workers=4 if q else 8, collect=True, timeout=3000)
@@ -84,7 +98,7 @@ def run(ctx):
             raise vlib.MachineryError("TLC emitted no cases for %s" % cfg)
         ctx.extra["cases_" + cfg.replace("WordDoc_", "").replace(".cfg", "")] = len(gen["cases"])
         for c in gen["cases"]:
-            k = vlib.json.dumps([c["fmt"], c["body"], c["hdr"], c["ftr"]], sort_keys=True)
+            k = vlib.json.dumps([c["fmt"], c["body"], c["hdr"], c["ftr"], c["sheet"]], sort_keys=True)
             if k not in seen:
                 seen.add(k)
                 cases.append(c)
